@@ -74,10 +74,16 @@ SpProd(n, c1, c2) == [kind |-> "pspace", m |-> 2, n |-> n,
 
 (* ----------------- extended values: Q, Inf, NaN (= unknown) ------------- *)
 XKnown(a)   == a[2] # 0
+\* TLC integers have 32 bits and overflow is an ERROR: every operation on VALUES refuses operands beyond 15 bits
+\* (products then stay below 2^30, sums of two products below 2^31) and answers "unknown" instead
+Big(a)      == Abs(a[1]) > 30000 \/ a[2] > 30000
 XAdd(a, b)  == IF a = Inf \/ b = Inf THEN Inf
-               ELSE IF a[2] = 0 \/ b[2] = 0 THEN NaN ELSE QAdd(a, b)
-XScal(s, a) == IF a[2] # 0 THEN QMul(s, a)
+               ELSE IF a[2] = 0 \/ b[2] = 0 \/ Big(a) \/ Big(b) THEN NaN ELSE QAdd(a, b)
+XScal(s, a) == IF a[2] # 0 THEN (IF Big(a) \/ Big(s) THEN NaN ELSE QMul(s, a))
                ELSE IF a = Inf /\ s[1] > 0 THEN Inf ELSE NaN
+XMul(a, b)  == IF a[2] = 0 \/ b[2] = 0 \/ Big(a) \/ Big(b) THEN NaN ELSE QMul(a, b)
+\* a vector whose entries can be squared and summed (up to 6 entries, weights <= 4) inside 32 bits
+Tame(x)     == \A i \in 1..Len(x) : Abs(x[i][1]) * x[i][2] <= 4096
 XSqrt(q)    == IF QIsSquare(q) THEN QSqrt(q) ELSE NaN
 
 (* ------------------------- expressions --------------------------------- *)
@@ -131,7 +137,8 @@ ConjVal(sp, f, y) ==
                IN IF XKnown(fu) THEN QSub(Inner(sp, u, y), fu) ELSE NaN
 
 Val(sp, f, x) ==
-  IF f.args = <<>> THEN
+  IF ~Tame(x) THEN NaN                      \* beyond the 32-bit budget of exact arithmetic: "unknown"
+  ELSE IF f.args = <<>> THEN
   CASE f.op = "L1"    -> AbsSumW(sp, x)
     [] f.op = "L2"    -> XSqrt(NormSq(sp, x))
     [] f.op = "L2sq"  -> NormSq(sp, x)
@@ -154,7 +161,7 @@ Val(sp, f, x) ==
     [] f.op = "IndBallInf" -> Ind(QLe(MaxAbs(x), QOne))
     [] f.op = "IndGroupBall" -> Ind(\A i \in 1..NGrp(sp) : QLe(GSq(sp, x, i), QOne))
     [] f.op = "Quad"  ->      \* <x, A x> + <b, x> + c , A = diag(v) (absent if v = <<>>)
-         QAdd(QAdd(IF f.v = <<>> THEN QZero ELSE Inner(sp, x, RMul(f.v, x)),
+         XAdd(XAdd(IF f.v = <<>> THEN QZero ELSE Inner(sp, x, RMul(f.v, x)),
                    IF f.u = <<>> THEN QZero ELSE Inner(sp, f.u, x)), f.c)
     [] f.op = "Const" -> f.c
     [] f.op = "KL"    ->      \* sum w (x - g + g ln(g/x)): rational only where the log vanishes
@@ -171,21 +178,20 @@ Val(sp, f, x) ==
     [] f.op = "AddConst"  -> XAdd(Val(sp, Arg(f), x), f.c)
     [] f.op = "QuadPert"  ->  \* f + a ||x||^2 + <x, u> + c
          XAdd(Val(sp, Arg(f), x),
-              QAdd(QAdd(QMul(f.s, NormSq(sp, x)),
+              XAdd(XAdd(XMul(f.s, NormSq(sp, x)),
                         IF f.u = <<>> THEN QZero ELSE Inner(sp, x, f.u)), f.c))
     [] f.op = "Sum"       -> XAdd(Val(sp, Arg(f), x), Val(sp, Arg2(f), x))
     [] f.op = "SepSum"    -> XAdd(Val(Part(sp, 1), Arg(f), PartVec(sp, x, 1)),
                                   Val(Part(sp, 2), Arg2(f), PartVec(sp, x, 2)))
     [] f.op = "Comp"      -> Val(sp, Arg(f), MatVec(f.v, x))
-    [] f.op = "Prod"      -> LET a == Val(sp, Arg(f), x)  b == Val(sp, Arg2(f), x)
-                             IN IF XKnown(a) /\ XKnown(b) THEN QMul(a, b) ELSE NaN
+    [] f.op = "Prod"      -> XMul(Val(sp, Arg(f), x), Val(sp, Arg2(f), x))
     [] f.op = "Quot"      -> LET a == Val(sp, Arg(f), x)  b == Val(sp, Arg2(f), x)
-                             IN IF XKnown(a) /\ XKnown(b) /\ b # QZero THEN QDiv(a, b) ELSE NaN
+                             IN IF XKnown(a) /\ XKnown(b) /\ b # QZero /\ ~Big(a) /\ ~Big(b) THEN QDiv(a, b) ELSE NaN
     [] f.op = "Bregman"   ->  \* f(x) - f(y) - <p, x - y> , y = f.v, p = f.u
          LET fy == Val(sp, Arg(f), f.v)
-         IN IF ~XKnown(fy) THEN NaN
-            ELSE XAdd(Val(sp, Arg(f), x),
-                      QNeg(QAdd(fy, Inner(sp, f.u, RSub(x, f.v)))))
+             r  == XAdd(fy, Inner(sp, f.u, RSub(x, f.v)))
+         IN IF ~XKnown(fy) \/ ~XKnown(r) THEN NaN
+            ELSE XAdd(Val(sp, Arg(f), x), QNeg(r))
     [] f.op = "Conj"      -> ConjVal(sp, Arg(f), x)
     [] f.op = "InfConv"   -> NaN                     \* ODL offers no evaluation either
 
@@ -457,7 +463,7 @@ SmoothAlong(sp, f, x, d, h) ==
   /\ Piece(sp, f, RAdd(x, RScal(h, d))) = pc
   /\ Piece(sp, f, RSub(x, RScal(h, d))) = pc
 
-StencilH(m) == IF m = 1 THEN Q(1, 16) ELSE Q(1, 2)      \* wide enough to keep 4th powers inside 32 bits
+StencilH(m) == IF m = 1 THEN Q(1, 8) ELSE Q(1, 2)       \* wide enough to keep 4th powers inside 32 bits
 \* directional derivative of x |-> Val(f, x) along d, or NaN when the stencil is not exact here
 DirDeriv(sp, f, x, d) ==
   LET deg == PolyDeg(sp, f)
@@ -470,7 +476,7 @@ DirDeriv(sp, f, x, d) ==
              \* 4th powers of the 5-point stencil stay inside 32 bits: half lattice, moderate size
              /\ deg > 2 => QLe(NormSq(sp, x), QI(64)) /\ \A i \in 1..Len(x) : x[i][2] <= 2
              /\ \A j \in 1..Len(pc) : pc[j] # Edge
-             /\ \A k \in (-m)..m : Piece(sp, f, P(k)) = pc /\ XKnown(Val(sp, f, P(k)))
+             /\ \A k \in (-m)..m : Piece(sp, f, P(k)) = pc /\ XKnown(Val(sp, f, P(k))) /\ ~Big(Val(sp, f, P(k)))
   IN IF ~ok THEN NaN
      ELSE IF m = 1
        THEN QDiv(QSub(Val(sp, f, P(1)), Val(sp, f, P(-1))), QMul(QI(2), StencilH(m)))
@@ -486,5 +492,7 @@ GradKnown(g) == \A i \in 1..Len(g) : XKnown(g[i])
 
 (* ------------------- Lipschitz bound: checked, never computed ---------- *)
 LipschitzHolds(sp, L, x, y, gx, gy) ==
-  QLe(NormSq(sp, RSub(gx, gy)), QMul(QSq(L), NormSq(sp, RSub(x, y))))
+  LET dg == RSub(gx, gy)  dx == RSub(x, y) IN
+  IF ~Tame(dg) \/ ~Tame(dx) \/ Big(QSq(L)) \/ Big(NormSq(sp, dx)) THEN TRUE        \* beyond 32 bits: no exact verdict
+  ELSE QLe(NormSq(sp, dg), QMul(QSq(L), NormSq(sp, dx)))
 =============================================================================
